@@ -71,6 +71,7 @@ RawChecks(ev) ==
     [] o = "raw.fpadd" -> << <<"value", r = GenAdd(a, b, p)>>, <<"reduced-case", ~(Lt(a, p) /\ Lt(b, p)) \/ r = AddMod(a, b, p)>> >>
     [] o = "raw.fpsub" -> << <<"value", r = GenSub(a, b, p)>>, <<"reduced-case", ~(Lt(a, p) /\ Lt(b, p)) \/ r = SubMod(a, b, p)>> >>
     [] o = "raw.fpdbl" -> << <<"value", r = GenAdd(a, a, p)>>, <<"reduced-case", ~Lt(a, p) \/ r = AddMod(a, a, p)>> >>
+    [] o = "raw.mullo" -> << <<"value", Norm(ev.out.r) = ModPow2(Mul(a, b), 384)>>, <<"width", Len(ev.out.r) = 48>> >>
     [] o = "raw.mul" -> << <<"value", Norm(ev.out.w) = Mul(a, b)>>, <<"width", Len(ev.out.w) = 96>> >>
     [] o = "raw.sqr" -> << <<"value", Norm(ev.out.w) = Mul(a, a)>>, <<"width", Len(ev.out.w) = 96>> >>
     [] o = "raw.redc" -> << <<"pre.range", Lt(Norm(ev.w), Mul(p, W384))>>,
@@ -90,7 +91,7 @@ RawChecks(ev) ==
     [] o = "raw.dispatch" -> << <<"value", ev.backend = "base" \/ ev.out.table = (IF ev.out.bmi2 = 1 THEN "bmi2" ELSE "base")>> >>
     [] OTHER -> << <<"unknown-op", FALSE>> >>
 
-Fails(ev) == FailsOf(IF ev.op \in {"raw.add", "raw.sub", "raw.shl1", "raw.fpadd", "raw.fpsub", "raw.fpdbl", "raw.mul",
+Fails(ev) == FailsOf(IF ev.op \in {"raw.add", "raw.sub", "raw.shl1", "raw.fpadd", "raw.fpsub", "raw.fpdbl", "raw.mul", "raw.mullo",
                                     "raw.sqr", "raw.redc", "raw.cmp", "raw.dispatch", "raw.copy", "raw.shr1", "raw.shr", "raw.shl",
                                     "raw.divdword", "raw.divword", "raw.fpneg", "raw.fpmul", "raw.fpsqr"}
                      THEN RawChecks(ev) ELSE FieldChecks(ev))
